@@ -348,6 +348,20 @@ def fetchWith (ex : Data → Exchange → Data × Option ExErr) (cached : Data) 
 def fetchData := fetchWith exchangeKeys
 def fetchDataOld := fetchWith exchangeKeysOld
 
+/-- Variant (seeded change C20-17, and any change of that shape): `FetchData` examines the freshly
+    exchanged data *after* `exchangeKeys` has stored it, on the branch that exchanged only;
+    `refuse d = some err` is `return Data{}, err` with `f.data` already assigned. The function at
+    the pinned commit is the instance `refuse = fun _ => none`. -/
+def fetchDataPostCheck (refuse : Data → Option ExErr) (cached : Data) (e : Exchange) : FetchRes :=
+  if cached.cookies.isEmpty then
+    match exchangeKeys cached e with
+    | (c, some err) => ⟨c, .error err, true⟩
+    | (c, none) =>
+      match refuse c with
+      | some err => ⟨c, .error err, true⟩
+      | none => ⟨{ c with cookies := c.cookies.drop 1 }, .ok c, true⟩
+  else ⟨{ cached with cookies := cached.cookies.drop 1 }, .ok cached, false⟩
+
 /-- Fetcher.StoreCookie -/
 def storeCookie (cached : Data) (c : List Byte) : Data :=
   { cached with cookies := cached.cookies ++ [c] }
